@@ -228,6 +228,11 @@ pub fn check_read_to_string(c: &ReadCase) -> CaseResult {
                 let kept_prefix = !f.fatals.is_empty() && got.len() >= old.len() && got[..old.len()] == *old && d.starts_with(&got[old.len()..]);
                 let shape = if got.len() >= old.len() && got[..old.len()] == *old { "bytes appended" } else { "existing content changed" };
                 ensure!(unchanged || kept_prefix, format!("{op}|string-changed-on-invalid-utf8|{shape}"), "delivered bytes {} are not UTF-8; the String must be unchanged ({}), it is {}", show(d), show(old), show(got));
+                // the stream did not end, it failed: that error is the one to surface (the bytes so far not being
+                // UTF-8 - perhaps only because the failure fell inside a scalar - does not replace it)
+                if !f.fatals.is_empty() {
+                    ensure!(f.fatals.contains(&k), format!("{op}|reader-error-replaced|by the not-UTF-8 error"), "the reader answered {} after delivering {} (not UTF-8 as it stands); {op} returned Err({e}) instead of the reader's error", f.fatals[0].label(), show(d));
+                }
                 rep.class("invalid-utf8-rejected");
                 rep.class_if(!f.fatals.is_empty(), "invalid-utf8-and-error");
             } else {
